@@ -339,7 +339,11 @@ def random_pair(rng):
                 if kind != 'group':
                     new[i] = [('%s:%s' % (kind, free[0]), g[0][1])]
                 else:
-                    new[i] = [('group:%s' % free[0], g[0][1])] + g[1:]
+                    # members are named after their group: rename them too
+                    members = [m.replace(oldn + '_m', free[0] + '_m') for m in dict(g[0][1])['programs'].split(',')]
+                    hdr_opts = [(k, ','.join(members) if k == 'programs' else v) for k, v in g[0][1]]
+                    new[i] = [('group:%s' % free[0], hdr_opts)] + [
+                        (h.split(':', 1)[0] + ':' + h.split(':', 1)[1].replace(oldn + '_m', free[0] + '_m'), o) for h, o in g[1:]]
         elif k == 'regen':
             new[i] = random_group(rng, group_name_of(new[i]))
         elif k == 'shuffle':
